@@ -68,6 +68,15 @@ class History:
         self.log: List[str] = []
         self.flags = {'mat2ang': False, 'frozen': False}
         self.bad = False
+        # the shared direction constants (Vec.N, Vec.x_pos, ...) are frozen vectors every user of the library gets the same
+        # object of: they are watched like any other frozen value, and take part as operands
+        for cname in ('N', 'S', 'E', 'W', 'T', 'B', 'x_pos', 'y_neg', 'z_pos'):
+            const = getattr(sm.Vec, cname, None)
+            if isinstance(const, sm.FrozenVec):
+                self.frozen_ids.add(id(const))
+                self.frozen.append((const, self.snapshot(const)))
+        if self.frozen and rng.random() < 0.5:
+            self.pool.append(self.frozen[rng.randrange(len(self.frozen))][0])
 
     # ---------------------------------------------------------------- helpers
     def raw(self, o) -> Any:
